@@ -10,7 +10,5 @@ CONSTANTS
   QuatMethods <- Methods
   MaxDepth = 1000000
 CONSTRAINT Progress
-INVARIANT Faithful
-INVARIANT ProperRot
 POSTCONDITION Accepted
 CHECK_DEADLOCK FALSE
